@@ -6,14 +6,20 @@
      block "attr" : every slot / sub-slot / repository / USE-dependency combination against
                     every slot / sub-slot / repository / IUSE / USE state
      block "key"  : same constraints, different category or package name
+     block "slotop": atoms written with a slot operator (which must not influence matching)
    Sets are written as sequences.                                                       *)
 EXTENDS AtomMatch, TLC, Json, IOUtils, SequencesExt
 CONSTANT Size
 Weight(v) == (Len(v.nums) - 1) + (IF v.letter # 0 THEN 1 ELSE 0) + Len(v.sufs) + (IF v.rev # <<>> THEN 1 ELSE 0)
 G1(z) == VersOf({<<1>>, <<1, 0>>}, {<<0>>, <<1>>, <<1, 0>>, <<0, 1>>}, 2, {0, 1},
              {"alpha", "p"}, {<<>>, <<1>>}, 1, {<<>>, <<0>>, <<1>>, <<1, 0>>})
-G2(z) == VersOf({<<1>>, <<2>>, <<1, 0>>}, {<<0>>, <<1>>, <<1, 0>>, <<0, 1>>, <<0, 1, 0>>}, 3, {0, 1, 2},
-             {"alpha", "pre", "p"}, {<<>>, <<0>>, <<1>>, <<1, 0>>}, 2, {<<>>, <<0>>, <<1>>, <<1, 0>>, <<0, 1>>})
+\* the versions of weight <= 1 of a bigger grammar, built directly (filtering the whole grammar is slow)
+G2(z) == LET NF == {<<1>>, <<2>>, <<1, 0>>}
+             NR == {<<0>>, <<1>>, <<1, 0>>, <<0, 1>>, <<0, 1, 0>>}
+         IN VersOf(NF, NR, 2, {0}, {}, {}, 0, {<<>>})
+            \cup VersOf(NF, {}, 1, {1, 2}, {}, {}, 0, {<<>>})
+            \cup VersOf(NF, {}, 1, {0}, {"alpha", "pre", "p"}, {<<>>, <<0>>, <<1>>, <<1, 0>>}, 1, {<<>>})
+            \cup VersOf(NF, {}, 1, {0}, {}, {}, 0, {<<>>, <<0>>, <<1>>, <<1, 0>>, <<0, 1>>})
 \* (G1, G2 take a dummy argument: TLC evaluates every zero-arity constant eagerly, used or not)
 AVers == TLCEval(IF Size = 1 THEN {v \in G1(0) : Weight(v) <= 1} ELSE {v \in G2(0) : Weight(v) <= 1} \cup {v \in G1(0) : Weight(v) <= 2})
 PVers == TLCEval(IF Size = 1 THEN {v \in G1(0) : Weight(v) <= 1} \cup {v \in G1(0) : Weight(v) = 2 /\ v.rev = <<1>> /\ v.letter = 0}
@@ -23,7 +29,7 @@ V1r1 == [V1 EXCEPT !.rev = <<1>>]
 
 J(blk, kind, cat, pkg, op, ver, slot, subslot, repo, deps, iuse, use) ==
     [blk |-> blk, kind |-> kind, cat |-> cat, pkg |-> pkg, op |-> op, ver |-> ver, slot |-> slot, subslot |-> subslot,
-     repo |-> repo, deps |-> SetToSeq(deps), iuse |-> SetToSeq(iuse), use |-> SetToSeq(use)]
+     repo |-> repo, deps |-> SetToSeq(deps), iuse |-> SetToSeq(iuse), use |-> SetToSeq(use), slotop |-> ""]
 Ops == {"<", "<=", "=", "~", ">=", ">", "=*"}
 VerAtoms == {J("ver", "atom", "c", "p", o, v, "", "", "", {}, {}, {}) : <<o, v>> \in {x \in Ops \X AVers : x[1] = "~" => x[2].rev = <<>>}}
             \cup {J("ver", "atom", "c", "p", "", V1, "", "", "", {}, {}, {})}
@@ -48,9 +54,14 @@ UseStates == {iu \in (SUBSET Flags) \X (SUBSET Flags) : iu[2] \subseteq iu[1]}
 PkgSlots == IF Size > 1 THEN {"0", "1"} \X {"0", "2"} ELSE {<<"0", "0">>, <<"1", "2">>}
 AttrPkgs == {J("attr", "pkg", "c", "p", "", v, sp[1], sp[2], r, {}, iu[1], iu[2]) :
                v \in (IF Size > 1 THEN {V1, V1r1} ELSE {V1}), sp \in PkgSlots, r \in {"r1", "r2"}, iu \in UseStates}
+\* slot operators (:= :* :0= :0/2=) do not take part in matching: same atoms, written with an operator
+\* (the record carries the operator only for rendering; Matches has no such field)
+OpAtoms == {[J("slotop", "atom", "c", "p", "", V1, s[1], s[2], "", {}, {}, {}) EXCEPT !.slotop = s[3]] :
+              s \in {<<"", "", "=">>, <<"", "", "*">>, <<"0", "", "=">>, <<"1", "2", "=">>, <<"0", "0", "=">>}}
+OpPkgs == {J("slotop", "pkg", "c", "p", "", V1, sp[1], sp[2], "r1", {}, {}, {}) : sp \in {"0", "1"} \X {"0", "2"}}
 KeyAtoms == {J("key", "atom", c, p, o, V1, "", "", "", {}, {}, {}) : c \in {"c", "cc"}, p \in {"p", "pp", "p-q"}, o \in {"", "=", "=*", ">="}}
 KeyPkgs == {J("key", "pkg", c, p, "", V1, "0", "0", "r1", {}, {}, {}) : c \in {"c", "cc"}, p \in {"p", "pp", "p-q"}}
-Cases == VerAtoms \cup VerPkgs \cup AttrAtoms \cup AttrPkgs \cup KeyAtoms \cup KeyPkgs
+Cases == VerAtoms \cup VerPkgs \cup AttrAtoms \cup AttrPkgs \cup KeyAtoms \cup KeyPkgs \cup OpAtoms \cup OpPkgs
 ASSUME PrintT(<<"sizes", Cardinality(VerAtoms), Cardinality(VerPkgs), Cardinality(AttrAtoms), Cardinality(AttrPkgs)>>)
 ASSUME ndJsonSerialize(IOEnv.OUT, SetToSeq(Cases))
 =========================================================================
